@@ -137,6 +137,20 @@ Proof.
   intros d o e Hwf Hr He. apply wf_doc_Wf in Hwf. exact (errors_unchanged d o e Hwf Hr He).
 Qed.
 
+(** the newline: nothing happens to a paragraph whose last field is terminated, otherwise the text of
+    the paragraph grows by exactly one LF at its end (in a parsed document only the very last field
+    of the document can be unterminated: [sep_ok], checked on every case) *)
+Theorem C10_newline_only_when_missing :
+  forall fs,
+    match last_opt fs with Some f => ends_nl (f_rest f) | None => true end = true -> nl fs = fs.
+Proof. exact nl_only_when_missing. Qed.
+
+Theorem C10_newline_is_one_lf_at_the_end :
+  forall fs,
+    concat (map field_text (nl fs)) = concat (map field_text fs)
+    \/ concat (map field_text (nl fs)) = (concat (map field_text fs) ++ [LF])%list.
+Proof. exact nl_text. Qed.
+
 (** * 4. insert_append_no_merge (partial)
 
     Full statement (DESIGN §4): abs (parse (dump (append f p))) has one more paragraph, equal to p;
@@ -224,4 +238,6 @@ Print Assumptions C10_moves_permute.
 Print Assumptions C10_sort_sorted.
 Print Assumptions C10_sort_stable.
 Print Assumptions C10_reorder_errors_unchanged.
+Print Assumptions C10_newline_only_when_missing.
+Print Assumptions C10_newline_is_one_lf_at_the_end.
 Print Assumptions C10_insert_append_no_merge_partial.
